@@ -126,8 +126,9 @@ def run(ctx):
     for comp in recursion_cycles(ctx.cg, seen):
         names = sorted({prog.root_of(prog.fns[c]).path for c in comp})
         key = sanitize("c14.recursion|" + "|".join(names)[:200])
-        if key in RECURSION_OK:
-            ctx.exception("c14.recursion", key, RECURSION_OK[key], prog.fns[comp[0]].loc())
+        from ..spec.triage import recursion_reason
+        if key in RECURSION_OK or recursion_reason(names):
+            ctx.exception("c14.recursion", key, RECURSION_OK.get(key) or recursion_reason(names), prog.fns[comp[0]].loc())
         else:
             ctx.violation("c14.recursion", key, "recursion cycle in reachable code: %s" % names, prog.fns[comp[0]].loc())
     # D3
